@@ -54,10 +54,12 @@ ASSUMPTIONS = [
     "effective timeout may be None or 0: a transport call that got no deadline and still raises TimeoutError does so on "
     "its own account (0 ms); a transport that blocks forever without a deadline is outside the model; with timeout 0 "
     "only replies that are already there (latency 0) are delivered",
-    "sessions: the requests of a session are issued one after the other (C05 covers concurrent callers), each on a client "
-    "object of its own over its own scripted transport; what can be carried from one request to the next is therefore "
-    "process-level state (module / class attributes of the parser and the client classes), not attributes of a client "
-    "instance.  Every session starts in a process forked from a helper that has imported gallia and built the request "
+    "sessions: the requests of a session are issued one after the other (C05 covers concurrent callers); half of the "
+    "sessions use one client object (UDSClient or ECU) and one transport object for all requests (`shared`; only timeout, "
+    "max_retry and the mutex are set per request, and a client whose transport was left closed by a failed reconnect is "
+    "replaced), the others a client of its own per request; every request has its own event script.  What can be carried "
+    "from one request to the next is thus process-level state (module / class attributes of the parser and the client "
+    "classes) and, in shared sessions, attributes of the client instance.  Every session starts in a process forked from a helper that has imported gallia and built the request "
     "objects but has never parsed a PDU",
     "asyncio.Lock is released by `async with` whatever leaves the block (contract of asyncio; observed on an "
     "instrumented lock in every widened case)",
@@ -392,19 +394,29 @@ def ms(t):
     return int(round(t * 1000))
 
 
-async def impl_case(case):
-    """run one request of the real client; returns the canonical observation"""
+async def impl_case(case, reuse=None):
+    """run one request of the real client; returns the canonical observation.  `reuse`: a dict that carries the client
+    object from one request of a session to the next (same object, same transport unless the client reconnected)"""
     G = _gallia()
     st = G["State"](case)
     FT = G["FakeTransport"]
     FT.state = st
-    tr = FT(G["TargetURI"]("fake://script"))
-    # every third case runs on the ECU class (the UDSClient subclass all scanners use: its _request wraps the exchange with state tracking and
-    # database logging and must hand the same outcome through), the others on the plain client
-    klass = G["ECU"] if (case["var"] + len(case["script"])) % 3 == 2 else G["UDSClient"]
-    client = klass(tr, timeout=None if case["ct"] is None else case["ct"] / 1000, max_retry=case["cm"])
-    if st.x:
-        client.mutex = G["LogLock"](st)
+    client = reuse.get("client") if reuse is not None else None
+    if client is not None and not client.transport.is_closed:
+        # the session's client issues this request too; only its configuration attributes are set for the step
+        client.timeout = None if case["ct"] is None else case["ct"] / 1000
+        client.max_retry = case["cm"]
+        client.mutex = G["LogLock"](st) if st.x else asyncio.Lock()
+    else:
+        tr = FT(G["TargetURI"]("fake://script"))
+        # every third case runs on the ECU class (the UDSClient subclass all scanners use: its _request wraps the exchange with state tracking and
+        # database logging and must hand the same outcome through), the others on the plain client
+        klass = G["ECU"] if (case["var"] + len(case["script"])) % 3 == 2 else G["UDSClient"]
+        client = klass(tr, timeout=None if case["ct"] is None else case["ct"] / 1000, max_retry=case["cm"])
+        if st.x:
+            client.mutex = G["LogLock"](st)
+    if reuse is not None:
+        reuse["client"] = client
     if case["rt"] is None and case["rm"] is None:
         cfg = None if case["var"] % 2 == 0 else G["UDSRequestConfig"]()
     else:
@@ -561,15 +573,17 @@ async def _bounded(coro, cap):
         raise
 
 
-def run_impl_batch(cases):
-    """all cases in one virtual-time loop (falls back to one loop per case if something stalls)"""
+def run_impl_batch(cases, shared=False):
+    """all cases in one virtual-time loop (falls back to one loop per case if something stalls); `shared`: one client
+    object for all of them (a session), replaced only after its transport was left closed"""
     def go(cs):
         loop = VLoop()
         try:
             asyncio.set_event_loop(loop)
 
             async def main():
-                return [await impl_case(c) for c in cs]
+                reuse = {} if shared else None
+                return [await impl_case(c, reuse) for c in cs]
             return loop.run_until_complete(main())
         finally:
             asyncio.set_event_loop(None)
@@ -603,7 +617,7 @@ _Z = {}
 
 
 def _session_child(sess):
-    return run_impl_batch(sess["session"])
+    return run_impl_batch(sess["session"], shared=bool(sess.get("shared")))
 
 
 def _zygote_main(conn, nproc):
@@ -697,11 +711,13 @@ def shrink_session(driver, sess, obs, mods, fail):
     """fixed order: cut after the failing step, drop earlier steps (first to last), plain earlier steps, plain failing step"""
     i, v = fail
     sig = signature(sess["session"][i], obs[i], mods[i], v)
-    best = ({"session": sess["session"][:i + 1]}, obs[:i + 1], mods[:i + 1], (i, v))
+    extra = {k: v_ for k, v_ in sess.items() if k != "session"}
+    best = ({**extra, "session": sess["session"][:i + 1]}, obs[:i + 1], mods[:i + 1], (i, v))
 
-    def attempt(steps):
+    def attempt(steps, **kw):
         nonlocal best
-        cand = {"session": steps}
+        cand = {**extra, **kw, "session": steps}
+        cand = {k: v_ for k, v_ in cand.items() if k == "session" or v_}
         (o, m), = run_sessions(driver, [cand])
         f = judge_session(cand, o, m)
         # the failure must stay in the last step: a request that fails on its own history-free is another finding
@@ -710,6 +726,8 @@ def shrink_session(driver, sess, obs, mods, fail):
         best = (cand, o, m, f)
         return True
 
+    if extra.get("shared") and attempt(best[0]["session"], shared=0):
+        extra = {}
     changed = True
     while changed:
         changed = False
@@ -757,7 +775,7 @@ def session_key(sess, obs, mods, fail):
     mr, _ = effective(c)
     hist = ">".join(req_tag(s_) for s_ in sess["session"][:i]) or "-"
     ctx_txt = context_of(c, o["reads"] if o["reads"] >= 0 else script_len(parse_script(c["script"])))
-    return (f"client-session:{'spec' if v[0] else 'tie'}:history={hist}:request={req_tag(c)}:events={ctx_txt}:max_retry={mr}:"
+    return (f"client-session{'-one-client' if sess.get('shared') else ''}:{'spec' if v[0] else 'tie'}:history={hist}:request={req_tag(c)}:events={ctx_txt}:max_retry={mr}:"
             f"impl={out_class(o['out'])}:implied={out_class(m['out'])}")
 
 
@@ -786,7 +804,7 @@ def session_cases(ctx):
             for sc, cm in shapes:
                 first = FINAL_SHAPES[(q + len(out)) % 5]
                 out.append({"session": [mk_case(first[0], cm=first[1], req=a, var=(a + q) % 7),
-                                        mk_case(sc, cm=cm, req=b, var=(b + len(out)) % 16)]})
+                                        mk_case(sc, cm=cm, req=b, var=(b + len(out)) % 16)]} | ({"shared": 1} if len(out) % 2 else {}))
     by_sub = {}
     for i, r in enumerate(rq):
         if len(r["req"].pdu) > 1:
@@ -808,7 +826,7 @@ def session_cases(ctx):
                 c = random_xcase(rng)
                 c["req"] = r
             steps.append(c)
-        out.append({"session": steps})
+        out.append({"session": steps} | ({"shared": 1} if rng.random() < 0.5 else {}))
     return out
 
 
@@ -1520,24 +1538,8 @@ def run(ctx):
         seen_sess[sg] = (s_, o, m, f)
     ctx.notes["sessions"] = len(sess)
     ctx.notes["session_requests"] = n_steps
-    reported = set()
-    for s_, o, m, f in seen_sess.values():
-        s2, o2, m2, f2 = shrink_session(driver, s_, o, m, f)
-        key = session_key(s2, o2, m2, f2)
-        if key in reported:
-            continue
-        reported.add(key)
-        i2 = f2[0]
-        rqs = _gallia()["reqs"]
-        ctx.disagree(key, f"UDSClient.request, request {i2 + 1} of a session in one process: " + "; ".join(f2[1][1]),
-                     {"case": s2, "driver_lines": [case_line(c) for c in s2["session"]],
-                      "requests": [f"{rqs[c['req'] % len(rqs)]['name']} ({bytes(rqs[c['req'] % len(rqs)]['req'].pdu).hex()}) events "
-                                   f"{c['script']}" for c in s2["session"]]},
-                     impl=[{k: x[k] for k in ("out", "writes", "reads", "elapsed", "detail")} for x in o2],
-                     model=[{k: x[k] for k in ("out", "writes", "reads", "elapsed")} for x in m2],
-                     spec_violated=f2[1][0], site="UDSClient.request_unsafe")
-
     # shrink and report
+    single_syms = set()
     seen_sig = {}
     for c, o, m, v in bad_all:
         sig = (signature(c, o, m, v), context_of(c, min(o["reads"], 400)) if len(seen_sig) < 30 else "")
@@ -1557,6 +1559,31 @@ def run(ctx):
                      impl={k: o2[k] for k in ("out", "writes", "reads", "elapsed", "detail")} | {"trace": o2["trace"][:60]},
                      model={k: m2[k] for k in ("out", "writes", "reads", "elapsed")} | {"trace": m2["trace"][:60]},
                      spec_violated=v2[0], site="UDSClient.request_unsafe")
+        single_syms.add(key.split(":events=")[1] if ":events=" in key and not is_x(c2) else key)
+
+    # sessions: reported after the single-request findings
+    reported = set()
+    for s_, o, m, f in seen_sess.values():
+        s2, o2, m2, f2 = shrink_session(driver, s_, o, m, f)
+        key = session_key(s2, o2, m2, f2)
+        if f2[0] == 0:
+            # the request fails without any history: one report per symptom, none if the single-request part reported it
+            sym = key.split(":events=")[1]
+            if sym in single_syms or sym in reported:
+                continue
+            reported.add(sym)
+        if key in reported:
+            continue
+        reported.add(key)
+        i2 = f2[0]
+        rqs = _gallia()["reqs"]
+        ctx.disagree(key, f"UDSClient.request, request {i2 + 1} of a session in one process: " + "; ".join(f2[1][1]),
+                     {"case": s2, "driver_lines": [case_line(c) for c in s2["session"]],
+                      "requests": [f"{rqs[c['req'] % len(rqs)]['name']} ({bytes(rqs[c['req'] % len(rqs)]['req'].pdu).hex()}) events "
+                                   f"{c['script']}" for c in s2["session"]]},
+                     impl=[{k: x[k] for k in ("out", "writes", "reads", "elapsed", "detail")} for x in o2],
+                     model=[{k: x[k] for k in ("out", "writes", "reads", "elapsed")} for x in m2],
+                     spec_violated=f2[1][0], site="UDSClient.request_unsafe")
     zygote_stop()
 
 
@@ -1566,6 +1593,7 @@ def replay(ctx, case):
     if "session" in c:
         (obs, mods), = run_sessions(ctx.driver_path, [c])
         f = judge_session(c, obs, mods)
+        print("session in one fresh process,", "one client object for all requests" if c.get("shared") else "one client object per request")
         for i, (st, o, m) in enumerate(zip(c["session"], obs, mods)):
             print(f"request {i + 1}: {req_tag(st)}  {case_line(st)}")
             print("  impl :", {k: o[k] for k in ("out", "writes", "reads", "elapsed", "detail")})
